@@ -47,6 +47,7 @@ pub fn corpus() -> &'static Vec<(String, Sources)> {
 pub fn explore_cfg() -> Cfg {
     Cfg {
         invalid_status: true,
+        shadow_pct: 8,
         ..Cfg::default()
     }
 }
